@@ -128,9 +128,10 @@ func runSysPlug(x *X) {
 		ex := env.newExchange(cl)
 		m := &meta{}
 		metas[ex.id] = m
-		ex.method = []string{"GET", "POST", "PUT", "HEAD", "GET"}[c.Intn(5, "method")]
+		ex.method = []string{"GET", "POST", "PUT", "HEAD", "GET", "DELETE", "PATCH"}[c.Intn(7, "method")]
 		ex.target = fmt.Sprintf("/p/%d", i)
-		if ex.method == "POST" || ex.method == "PUT" {
+		// any method may carry a body (unusual for GET/HEAD/DELETE, legal all the same): limits are per request, not per verb
+		if ex.method == "POST" || ex.method == "PUT" || ex.method == "PATCH" || c.Intn(4, "body-anyway") == 0 {
 			var n int
 			switch c.Intn(6, "reqsize") {
 			case 0:
@@ -194,10 +195,14 @@ func runSysPlug(x *X) {
 		if n < 0 {
 			n = 0
 		}
-		// thorough tier: now and then a body around the gzip plugin's 10 MB buffering cap
+		// now and then a body around the gzip plugin's 10 MB buffering cap
 		capCase := false
-		if x.Tier == "thorough" && wantGzip && !wantSize && i == 0 && c.Intn(25, "cap-case") == 0 {
-			n = 10*1024*1024 - 2 + c.Intn(5, "cap-delta")
+		capOdds := 150 // (quick tier: a few dozen 10 MB bodies per check)
+		if x.Tier == "thorough" {
+			capOdds = 25
+		}
+		if wantGzip && !wantSize && i == 0 && c.Intn(capOdds, "cap-case") == 0 {
+			n = 10*1024*1024 - 2 + []int{0, 1, 2, 3, 4, 3, 4, 4096}[c.Intn(8, "cap-delta")]
 			capCase = true
 			x.Probe("around-10MB-cap")
 		}
@@ -216,6 +221,9 @@ func runSysPlug(x *X) {
 			rs.hdr = filterHdr(rs.hdr, "Content-Encoding")
 		}
 		rs.framing = []string{"cl", "chunked", "cl"}[c.Intn(3, "framing")]
+		if capCase && c.Intn(2, "cap-streamed") == 1 {
+			rs.framing = "chunked" // a streamed body has no declared length to fall back on
+		}
 		if rs.status == 204 || rs.status == 304 {
 			rs.framing = "none"
 		}
